@@ -11,7 +11,7 @@ for d in sorted(glob.glob("/verif/seeded/*/")):
     last = res[-1] if res else None
     s = m["summary"].replace("|", "/").replace("\n", " ")
     s = s[:150] + ("…" if len(s) > 150 else "")
-    rnd = 5 if "-R5-" in m["id"] else 4 if "-R4-" in m["id"] else 3 if "-R3-" in m["id"] else 2 if "-R2-" in m["id"] else 1
+    rnd = 6 if "-R6-" in m["id"] else 5 if "-R5-" in m["id"] else 4 if "-R4-" in m["id"] else 3 if "-R3-" in m["id"] else 2 if "-R2-" in m["id"] else 1
     st = stats.setdefault(rnd, [0, 0, 0]); st[0] += 1
     st[1] += bool(first and first["detected_by"]); st[2] += bool(last and last["detected_by"])
     rows.append("| %s | %s | %s | %s |" % (m["id"], s, fmt(first), fmt(last)))
